@@ -1,4 +1,4 @@
 /- Driver for C02 (see `Exec/Driver.lean`). -/
 import YashModel.Common.Proto
 import YashModel.Exec.Driver
-def main : IO Unit := YashModel.Proto.mainLoop YashModel.Exec.runLine
+def main : IO Unit := YashModel.Proto.mainLoop YashModel.Exec.runLineFull
